@@ -20,7 +20,7 @@ def run(run):
     C.build_driver()
     h, d = C.Harness(), C.Driver()
     rng = run.rng
-    quick = run.tier == "quick"
+    quick = run.depth == "quick"
     stats = collections.Counter()
     mism = []
     proj = E.small_project(rng, h, nfiles=2)
